@@ -197,6 +197,13 @@ def load_findings(prop_id):
     return known, fixed
 
 
+def repros_of(entry, prop_id):
+    r = entry.get('repros', {})
+    if isinstance(r, dict):
+        return list(r.get(prop_id, []))
+    return list(r)
+
+
 def shard_main(args):
     (prop_id, tier, shard, n_cases, seed_value, scratch, known_ids, env,
      time_limit) = args
@@ -345,9 +352,7 @@ def campaign(mod, prop_id, tier, seed_value, jobs, scratch, known, fixed,
 
     # 1. fixed findings: their reproductions are plain regression cases
     for e in fixed:
-        for case in e.get('repros', [e.get('repro')]):
-            if case is None:
-                continue
+        for case in repros_of(e, prop_id):
             out, err = safe_run(mod, case, ctx)
             if err is not None:
                 stats.harness.append((err, case))
@@ -357,9 +362,7 @@ def campaign(mod, prop_id, tier, seed_value, jobs, scratch, known, fixed,
     # 2. known findings: print while the reproduction still fails
     for e in known:
         still = False
-        for case in e.get('repros', [e.get('repro')]):
-            if case is None:
-                continue
+        for case in repros_of(e, prop_id):
             out, err = safe_run(mod, case, ctx)
             if err is not None:
                 stats.harness.append((err, case))
